@@ -2,6 +2,8 @@ package main
 
 import (
 	"go/ast"
+	"os"
+	"path/filepath"
 	"strings"
 )
 
@@ -77,3 +79,129 @@ func init() {
 		}
 	})
 }
+
+// How the chain a Sequence executes is built from the configured rules:
+// buildChain appends exactly one node per rule, in order; newNode gives it
+// the rule's matchers in order (negated where written with '!') and the
+// rule's executable; nothing else in the package writes a Sequence's chain or
+// a node's fields; Sequence.Exec walks that chain from its first node.
+func init() {
+	factFuncs = append(factFuncs, func(ex *factExtractor) {
+		const dir = "plugin/executable/sequence"
+		const crel = dir + "/chain.go"
+		const srel = dir + "/sequence.go"
+		bc := ex.fn(crel, "Sequence", "buildChain")
+		bcShape := bc != nil && ex.str(bc.Body) == "{ c := make([]*ChainNode, 0, len(rs)) for ri, r := range rs { n, err := s.newNode(bq, r, ri) if err != nil { return fmt.Errorf(\"failed to init rule #%d, %w\", ri, err) } c = append(c, n) } s.chain = c return nil }"
+		appends := int64(0)
+		loopOK := false
+		if bc != nil {
+			for _, st := range bc.Body.List {
+				rg, ok := st.(*ast.RangeStmt)
+				if !ok || ex.str(rg.X) != "rs" {
+					continue
+				}
+				loopOK = true
+				ast.Inspect(rg.Body, func(n ast.Node) bool {
+					if as, ok := n.(*ast.AssignStmt); ok && len(as.Lhs) == 1 && len(as.Rhs) == 1 {
+						if c, ok := as.Rhs[0].(*ast.CallExpr); ok && ex.str(c.Fun) == "append" && len(c.Args) > 0 && ex.str(c.Args[0]) == ex.str(as.Lhs[0]) {
+							appends += int64(len(c.Args) - 1)
+						}
+					}
+					return true
+				})
+			}
+		}
+		ex.setNat("c06ChainAppendsPerRule", appends, bc != nil && loopOK, "buildChain: nodes appended to the chain per iteration of the loop over the configured rules")
+		ex.setBool("c06BuildChainShape", bcShape, bc != nil, "buildChain: for each rule in order: newNode (error aborts), append; then s.chain = c")
+
+		nn := ex.fn(crel, "Sequence", "newNode")
+		nnShape := false
+		if nn != nil {
+			ss := stmtStrings(ex, nn.Body)
+			nnShape = len(nn.Body.List) == 7 && ex.str(nn.Body.List[0]) == "n := new(ChainNode)" &&
+				strings.HasPrefix(ex.str(nn.Body.List[1]), "for mi, mc := range r.Matches { m, err := s.newMatcher(bq, mc, ri, mi) if err != nil {") &&
+				strings.HasSuffix(ex.str(nn.Body.List[1]), "n.Matches = append(n.Matches, m) }") &&
+				contains(ss, "e, re, err := s.newExec(bq, r, ri)") && ex.str(nn.Body.List[4]) == "n.E = e" && ex.str(nn.Body.List[5]) == "n.RE = re" &&
+				ex.str(nn.Body.List[6]) == "return n, nil"
+		}
+		nm := ex.fn(crel, "Sequence", "newMatcher")
+		if nm != nil {
+			l := nm.Body.List
+			nnShape = nnShape && len(l) >= 2 && ex.str(l[len(l)-2]) == "if mc.Reverse { m = reverseMatcher(m) }" && ex.str(l[len(l)-1]) == "return m, nil"
+		}
+		ex.setBool("c06NewNodeShape", nnShape, nn != nil && nm != nil, "newNode: the rule's matchers in configured order (reverseMatcher iff '!'), E/RE from newExec of the same rule")
+
+		ns := ex.fn(srel, "", "NewSequence")
+		se := ex.fn(srel, "Sequence", "Exec")
+		ex.setBool("c06NewSequenceShape", ns != nil && ex.str(ns.Body) == "{ s := &Sequence{} var rc []RuleConfig for _, ra := range ra { rc = append(rc, parseArgs(ra)) } if err := s.buildChain(bq, rc); err != nil { _ = s.Close() return nil, err } return s, nil }", ns != nil,
+			"NewSequence: parse every rule in order, buildChain, return the sequence as built")
+		ex.setBool("c06SequenceExecWalksWholeChain", se != nil && ex.str(se.Body) == "{ walker := NewChainWalker(s.chain, nil) return walker.ExecNext(ctx, qCtx) }", se != nil, "Sequence.Exec: a fresh walker at the first node of s.chain, no caller")
+
+		// writes to a chain or to a node's fields anywhere else in the package
+		ents, err := os.ReadDir(filepath.Join(ex.repo, dir))
+		rewrites := int64(0)
+		var where []string
+		parsed := err == nil
+		for _, e := range ents {
+			name := e.Name()
+			if e.IsDir() || !strings.HasSuffix(name, ".go") || strings.HasSuffix(name, "_test.go") {
+				continue
+			}
+			f := ex.file(dir + "/" + name)
+			if f == nil {
+				parsed = false
+				continue
+			}
+			for _, d := range f.Decls {
+				fd, _ := d.(*ast.FuncDecl)
+				fname := ""
+				if fd != nil {
+					fname = fd.Name.Name
+				}
+				ast.Inspect(d, func(n ast.Node) bool {
+					hit := func(what string) {
+						rewrites++
+						where = append(where, name+":"+fname+":"+what)
+					}
+					switch x := n.(type) {
+					case *ast.AssignStmt:
+						for _, l := range x.Lhs {
+							// through an index or a dereference too: c[i].E = ..., (*n).E = ...
+							sel, ok := l.(*ast.SelectorExpr)
+							if !ok {
+								if ix, ok2 := l.(*ast.IndexExpr); ok2 {
+									if s2, ok3 := ix.X.(*ast.SelectorExpr); ok3 && s2.Sel.Name == "chain" {
+										hit(ex.str(l))
+									}
+								}
+								continue
+							}
+							switch sel.Sel.Name {
+							case "chain":
+								if fname != "buildChain" {
+									hit(ex.str(l))
+								}
+							case "E", "RE":
+								if fname != "newNode" {
+									hit(ex.str(l))
+								}
+							case "Matches":
+								if fname != "newNode" && fname != "parseArgs" {
+									hit(ex.str(l))
+								}
+							}
+						}
+					case *ast.CompositeLit:
+						t := ex.str(x.Type)
+						if (t == "ChainNode" || t == "Sequence") && len(x.Elts) > 0 {
+							hit(t + "{...}")
+						}
+					}
+					return true
+				})
+			}
+		}
+		ex.setNat("c06ChainRewrites", rewrites, parsed, "statements in package sequence, outside buildChain/newNode, that assign a chain or a node's Matches/E/RE, or build a non-empty ChainNode/Sequence literal: "+strings.Join(where, " "))
+	})
+}
+
